@@ -401,19 +401,21 @@ pub fn classes(tier: Tier) -> Vec<(&'static str, Vec<G>, Vec<char>, usize)> {
         ("k01", en::k01().upto(if q { 3 } else { 4 }).into_iter().filter(supported).collect(), vec!['a', 'b', 'c'], 4),
         ("kext-recovery", en::k_ext().upto(if q { 3 } else { 4 }).into_iter().filter(supported).collect(), vec!['a', 'b', 'c'], 4),
         ("k02-sinks", k02, vec!['a', 'b', ','], if q { 4 } else { 5 }),
-        ("kgroup-deep", k_group().upto(if q { 4 } else { 5 }), vec!['a', 'b'], 4),
+        ("kgroup-deep", k_group().upto(if q { 4 } else { 5 }), vec!['a', 'b', ','], 4),
     ]
 }
 
 /// focused class: fixed-size collections failing at every position
 pub fn k_group() -> en::Class {
     use G::*;
-    let leaves = vec![Just('a'), Any, JustSeq('a', 'b')];
+    let leaves = vec![Just('a'), Any, JustSeq('a', 'b'), Just(',')];
     let unary: Vec<en::U1> = vec![
         Box::new(|a| Some(Map(a))),
         Box::new(|a| Some(OrNot(a))),
-        Box::new(|a| if en::nn(&a) { Some(Rep(a, Bounds::new(0, None), Sink::Exactly(2))) } else { None }),
-        Box::new(|a| if en::nn(&a) { Some(Rep(a, Bounds::new(2, None), Sink::Exactly(3))) } else { None }),
+        // zero-width items are legal under collect_exactly (bounded by N, no progress assertion)
+        Box::new(|a| Some(Rep(a, Bounds::new(0, None), Sink::Exactly(2)))),
+        Box::new(|a| Some(Rep(a, Bounds::new(2, None), Sink::Exactly(3)))),
+        Box::new(|a| Some(Rep(a, Bounds::new(0, Some(1)), Sink::Exactly(2)))),
         Box::new(|a| if en::nn(&a) { Some(Rep(a, Bounds::new(1, Some(2)), Sink::Vec)) } else { None }),
     ];
     let binary: Vec<en::U2> = vec![
@@ -421,7 +423,8 @@ pub fn k_group() -> en::Class {
         Box::new(|a, c| Some(Group(Coll::Tuple, vec![*a, *c]))),
         Box::new(|a, c| Some(Or(a, c))),
         Box::new(|a, c| Some(Then(a, c))),
-        Box::new(|a, s| if en::nn(&a) && en::nn(&s) { Some(SepBy(a, s, Bounds::new(2, None), false, false, Sink::Exactly(3))) } else { None }),
+        Box::new(|a, s| if en::nn(&s) { Some(SepBy(a, s, Bounds::new(2, None), false, false, Sink::Exactly(3))) } else { None }),
+        Box::new(|a, s| if en::nn(&s) { Some(SepBy(a, s, Bounds::new(0, None), false, false, Sink::Exactly(2))) } else { None }),
     ];
     let ternary: Vec<en::U3> = vec![Box::new(|a, o, c| Some(Group(Coll::Array, vec![*a, *o, *c]))), Box::new(|a, o, c| Some(Group(Coll::Tuple, vec![*a, *o, *c])))];
     en::Class { name: "Kgroup", leaves, unary, binary, ternary }
